@@ -366,4 +366,19 @@ theorem pick_best_is_max_overlap (cands : List (Nat × Rat)) (big : Bool) (r : N
         rw [← h]
         rfl
 
+/-- **pick_best_overlaps** — the 'utm*' zone choice and enclosure: whenever *any* candidate CRS has a
+valid area overlapping the raster's footprint (key > 0: a positive overlap fraction, or for a point-like
+footprint "contains the location"), the chosen CRS has one too — for every number and order of
+candidates.  (With the pyproj query returning exactly the zones that intersect the footprint, the chosen
+UTM CRS's valid area therefore always overlaps the raster.) -/
+theorem pick_best_overlaps (cands : List (Nat × Rat)) (big : Bool) (r : Nat)
+    (h : pickBest cands big = .ok r) (hex : ∃ x ∈ cands, 0 < x.2) :
+    ∃ v, (r, v) ∈ cands ∧ 0 < v := by
+  obtain ⟨v, hm, hmax, _⟩ := pick_best_is_max_overlap cands big r h
+  obtain ⟨x, hx, hpos⟩ := hex
+  exact ⟨v, hm, lt_of_lt_of_le hpos (hmax x hx)⟩
+
+/-- non-vacuity: the wrong-side first candidate (key 0) loses against the containing zone -/
+example : pickBest [(32643, 0), (32644, 1)] false = .ok 32644 := by decide +kernel
+
 end OdcGeo.C11
